@@ -3,6 +3,7 @@ package harness
 import (
 	"bytes"
 	"encoding/binary"
+	"errors"
 	"fmt"
 	"os"
 	"strconv"
@@ -74,6 +75,23 @@ func unquote(rec []byte) ([]byte, error) {
 	return out, nil
 }
 
+// c20Out: macat's standard output; every write made while message failFor is
+// being printed fails with nothing written.
+type c20Out struct {
+	buf     bytes.Buffer
+	cur     int
+	failFor int
+	failed  int
+}
+
+func (o *c20Out) Write(p []byte) (int, error) {
+	if o.failFor >= 0 && o.cur == o.failFor {
+		o.failed++
+		return 0, errors.New("write /dev/stdout: no space left on device")
+	}
+	return o.buf.Write(p)
+}
+
 func c20Recv(w *W) {
 	format := []string{"raw", "ascii", "quoted", "msgpack"}[w.Choose(simrt.SShape, 4)]
 	pat := []struct{ flag, peer string }{{"--pull", "push"}, {"--sub", "pub"}, {"--pair", "pair"}, {"--bus", "bus"}, {"--rep", "req"}, {"--respondent", "surveyor"}}[w.Choose(simrt.SShape, 6)]
@@ -83,10 +101,17 @@ func c20Recv(w *W) {
 	w.SetShape("pattern", pat.flag)
 	w.SetShape("msgs", nmsg)
 	addr := w.Addr("inproc")
-	var out bytes.Buffer
+	// the output stream may fail while one of the messages is being printed
+	// (a full disk behind a redirected stdout): that record is lost, every
+	// later message is still printed, whole and in order
+	out := &c20Out{cur: -1, failFor: -1}
+	if nmsg >= 2 && w.Choose(simrt.SShape, 4) == 0 {
+		out.failFor = w.Choose(simrt.SShape, nmsg)
+		w.SetShape("output_fails_during_message", out.failFor)
+	}
 	app := &macat.App{}
 	app.Initialize()
-	app.VerifSetStdout(&out)
+	app.VerifSetStdout(out)
 	args := []string{pat.flag, "--bind", addr, "--recv-timeout", strconv.Itoa(tmo)}
 	switch w.Choose(simrt.SShape, 3) {
 	case 0:
@@ -112,6 +137,7 @@ func c20Recv(w *W) {
 	for i := 0; i < nmsg; i++ {
 		b := c20Body(w, i)
 		bodies = append(bodies, b)
+		out.cur = i
 		if err := peer.Send(b); err != nil {
 			w.Failf("HARNESS/send", "%v", err)
 			return
@@ -130,7 +156,12 @@ func c20Recv(w *W) {
 		return
 	}
 	// a bare integer means seconds: the run ends tmo seconds after the last message was received
-	data := out.Bytes()
+	data := out.buf.Bytes()
+	if out.failFor >= 0 && out.failed > 0 {
+		w.Fault("output-write-error")
+		w.Probe("output-stream-failed-during-one-message")
+		bodies = append(append([][]byte(nil), bodies[:out.failFor]...), bodies[out.failFor+1:]...)
+	}
 	switch format {
 	case "raw":
 		want := bytes.Join(bodies, nil)
